@@ -196,7 +196,7 @@ func (s *GSpec) GoSource(pkg string) string {
 	src = strings.ReplaceAll(src, "TOKTYPES", tt.String())
 	if s.NilTwin {
 		for _, rp := range [][2]string{
-			{"type Node struct {\n\tS string\n\tK int\n}\n\nfunc (n Node) Discard() bool { return n.K%2 == 1 }", "type Node interface{}\n\ntype nodeS struct {\n\tS string\n\tK int\n}"},
+			{"type Node struct {\n\tS string\n\tK int\n}\n\nfunc (n Node) Discard() bool { return n.K%2 == 1 }", "// a marker method keeps Token / Error / slices from being assignable to Node\ntype Node interface{ isNode() }\n\ntype nodeS struct {\n\tS string\n\tK int\n}\n\nfunc (nodeS) isNode() {}"},
 			{"\tcase Node:\n", "\tcase nil:\n\t\treturn \"_\"\n\tcase nodeS:\n"},
 			{"return Node{S: s, K: len(kids)}", "return nodeS{S: s, K: len(kids)}"},
 		} {
